@@ -186,7 +186,7 @@ def _safe(fn):
         return "EXC:" + type(e).__name__
 
 
-PART_NAMES = ("repr", "represent", "props", "keys_iter")
+PART_NAMES = ("repr", "represent", "props", "keys_iter", "keys_iter_before_printing")
 
 
 class Violation(Exception):
@@ -247,14 +247,19 @@ class Machine:
 
     def observe(self, e):
         sch = e.schema
-        parts = [_safe(lambda: repr(sch)), _safe(lambda: self.P.represent(sch)), _safe(lambda: self.dump(sch))]
         kind = type(sch).__name__
-        if kind == "DictSchema":
-            parts.append(_safe(lambda: [snap(k) for k in sch.keys()] + [snap(k) for k in sch]))
-        elif kind == "AnySchema":
-            parts.append(_safe(lambda: [self.dump(x) for x in sch]))
-        else:
-            parts.append("-")
+
+        def order():
+            if kind == "DictSchema":
+                return [snap(k) for k in sch.keys()] + [snap(k) for k in sch]
+            if kind == "AnySchema":
+                return [self.dump(x) for x in sch]
+            return "-"
+        # key / alternative order is read first and last: a printer or validator that reorders the
+        # schema's own mapping shows up as a difference between the two, or against the baseline
+        first = _safe(order)
+        parts = [_safe(lambda: repr(sch)), _safe(lambda: self.P.represent(sch)), _safe(lambda: self.dump(sch)), _safe(order)]
+        parts.append(first)
         for v in e.probes:
             parts.append(_safe(lambda: self.verdict(sch, v)))
         return parts
@@ -1206,8 +1211,15 @@ class Prop(BaseProp):
         keys = {derive(kinds, tuple(sorted(m.fault_tags))) & 0xFFFFFFFFFFFF}
         violations = [self._violation(case, m, v, op)] if v is not None else []
         sample = {"history": [describe(o) for o in m.oplog][:60], "faults": sorted(m.fault_tags)}
+        d = fast_digest(m.outcomes)
+        # a history is comparable across hash seeds unless it touches something that legitimately
+        # depends on string hashing on the current tree: a regex with a negated class (KF-C17-1), or a
+        # set/frozenset value (CPython prints sets in hash order, and error messages print values)
+        import json as _json
+        text = _json.dumps(m.oplog, default=str)
+        hs_sensitive = ("[^" in text) or ("$set" in text) or ("$frozenset" in text) or ("class_neg" in text) or ('"neg": true' in text)
         return {"executions": max(1, len(m.oplog)), "violations": violations, "keys": keys,
-                "digest": fast_digest(m.outcomes), "sample": sample}
+                "digest": d, "digest_hs": None if hs_sensitive else d, "sample": sample}
 
     # ------------------------------------------------------------ shrink / replay
     def check_single(self, case, schedule_json, sig_id, kf="__any__"):
